@@ -117,3 +117,65 @@ func vfHarnessC07(names []string) {
 }
 
 func VerifHarness_C07_crash() { vfHarnessC07([]string{"a", "a_c"}) }
+
+// C07.crashthen: the history stays usable after the crash — a fresh process applies a manual
+// status update to the interrupted (or to the completed) run and the queries must show it.
+func VerifHarness_C07_crashthen() {
+	db, loc := vfNewDB()
+	if vfNative() {
+		defer os.RemoveAll(loc)
+	}
+	dagFile := "/dags/a.yaml"
+	prior := vfRecordRun(db, dagFile, "req-prio-0", vfBase, 1, true)
+	id2 := "req-intr-1"
+	t2 := vfBase.Add(vfOffsets[1+vfChoice("offset", len(vfOffsets)-1)])
+	acked := 0
+	crashed := vfCrashable(func() {
+		if db.Open(dagFile, t2, id2) != nil {
+			return
+		}
+		if db.Write(vfStatus(id2, scheduler.StatusRunning, id2+"/w1")) == nil {
+			acked = 1
+		}
+		if db.Write(vfStatus(id2, scheduler.StatusSuccess, id2+"/w2")) == nil {
+			acked = 2
+		}
+		_ = db.Close()
+	})
+	if crashed {
+		vfClass("killed")
+	}
+	// a fresh process edits a run by hand
+	editor, _ := vfNewDBAt(loc)
+	target := prior.id
+	if vfChoice("editTarget", 2) == 1 {
+		target = id2
+	}
+	updErr := editor.Update(dagFile, target, vfStatus(target, scheduler.StatusError, "edited"))
+	if target == prior.id || acked >= 1 {
+		vfAssert(updErr == nil, "C07.then/recorded-run-can-still-be-edited")
+	}
+	fresh, _ := vfNewDBAt(loc)
+	if updErr == nil {
+		sf, err := fresh.FindByRequestID(dagFile, target)
+		vfAssert(err == nil && sf != nil && sf.Status.Params == "edited", "C07.then/acknowledged-edit-is-returned-by-lookup")
+		rec := fresh.ReadStatusRecent(dagFile, 3)
+		n, edited := 0, false
+		for _, r := range rec {
+			if r.Status.RequestID == target {
+				n++
+				edited = edited || r.Status.Params == "edited"
+			}
+		}
+		vfAssert(n == 1, "C07.then/edited-run-is-listed-exactly-once")
+		vfAssert(n != 1 || edited, "C07.then/recent-history-shows-the-acknowledged-edit")
+		if target == id2 || acked == 0 {
+			// the edited run is the newest one that has a status
+			st, err := fresh.ReadStatusToday(dagFile)
+			if target == id2 {
+				vfAssert(err == nil && st != nil && st.Params == "edited", "C07.then/latest-status-shows-the-acknowledged-edit")
+			}
+		}
+	}
+	vfReach("end")
+}
